@@ -139,18 +139,42 @@ func scenC10(run *vlab.Run, sx, tmp string) {
 		}
 		args = append(args, subnet)
 		run.Case(fmt.Sprintf("c10w%03d", i), args)
-		for attempt := 0; attempt < 3; attempt++ {
-			final := attempt == 2
-			if attempt > 0 {
+		stalled := 0
+		for a := base; a < base+size; a++ {
+			if c10wireBeh[behOf(a)].name == "stall-headers" {
+				stalled++
+			}
+		}
+		workers := 0
+		fmt.Sscan(args[5], &workers)
+		missRuns, slowRuns := 0, 0
+		for attempt := 0; attempt < 6; attempt++ {
+			final := missRuns == 2
+			if missRuns > 0 {
 				// re-judge an upper bound with a longer request timeout
 				for k := range args {
 					if args[k] == tmoS {
-						tmoS = []string{"1500ms", "6s", "20s"}[attempt]
+						tmoS = []string{"1500ms", "6s", "20s"}[missRuns]
 						args[k] = tmoS
 					}
 				}
 			}
 			res := RunCase(sx, &CaseSpec{Args: args, Setup: loOnly, Timeout: 180 * time.Second})
+			// time bound: only the primary request of a stalling target stalls, so a worker is held for one request
+			// timeout per such target (twice that plus 4 s is allowed); an upper bound for sx: judged on three runs
+			if tmo, err := time.ParseDuration(tmoS); err == nil && !res.TimedOut && res.SetupErr == "" {
+				bound := time.Duration((stalled+workers-1)/workers)*2*tmo + 4*time.Second
+				run.Max("c10_wire_max_run_ms", res.TExit.Milliseconds())
+				if res.TExit > bound && res.Stall < 300*time.Millisecond {
+					slowRuns++
+					if slowRuns < 3 {
+						continue
+					}
+					run.Violation("wire:time-bound:"+kind, fmt.Sprintf("three runs in a row took longer (%v) than %d stalled targets / %d workers x 2 x request timeout %v + 4 s = %v: %s", res.TExit, stalled, workers, tmo, bound, strings.Join(args, " ")), args)
+				} else if stalled > 0 {
+					run.Count("c10_wire_time_bounds_checked", 1)
+				}
+			}
 			run.Eval(1)
 			if !baseChecks(run, res, args, true) {
 				break
@@ -226,6 +250,7 @@ func scenC10(run *vlab.Run, sx, tmp string) {
 			}
 			if missing > 0 && !final {
 				run.Count("c10_wire_runs_retried", 1)
+				missRuns++
 				continue
 			}
 			if missing > 0 {
